@@ -34,6 +34,7 @@ INVARIANT NeverStuck
 INVARIANT Emit
 '''
 SEC = {1: 'section', 2: 'subsection', 3: 'subsubsection'}
+SECDEEP = {1: 'subsubsection', 2: 'paragraph', 3: 'subparagraph'}     # the same three levels spelled with the deepest units
 SECBOOK = {1: 'chapter', 2: 'section', 3: 'subsection'}
 DECLS = ['bfseries', 'itshape']
 CMDS = ['textbf', 'emph', 'footnote', 'mbox', 'verb', 'math']
@@ -52,13 +53,13 @@ def concretise(stream, salt):
             if c == 'verb':
                 out.append(r'\verb|w%da--w%db| ' % (n, n))
             elif c == 'math':
-                out.append(r'$w%da--w%db$ ' % (n, n))
+                out.append((r'$w%da{--}w%db$ ' if (n + salt) % 2 else r'$w%da--w%db$ ') % (n, n))     # a bare group inside mathematics
             else:
                 out.append(r'\%s{w%da--w%db} ' % (c, n, n))
         elif k == 'par':
             out.append('\n\n' if (n + salt) % 2 else r'\par ')
         elif k == 'sec':
-            out.append('\\%s%s{T w%dt}' % ((SECBOOK if book else SEC)[it['lvl']], '*' if (n + salt) % 4 == 0 else '', n))
+            out.append('\\%s%s{T w%dt}' % ((SECBOOK if book else (SECDEEP if salt % 6 == 2 else SEC))[it['lvl']], '*' if (n + salt) % 4 == 0 else '', n))
         elif k == 'decl':
             out.append('\\%s ' % DECLS[(n + salt) % len(DECLS)])
         elif k == 'scmd':
@@ -88,7 +89,7 @@ def concretise(stream, salt):
 
 def kind_of(node):
     name = getattr(node, 'nodeName', None)
-    if name in ('chapter', 'section', 'subsection', 'subsubsection'):
+    if name in ('chapter', 'section', 'subsection', 'subsubsection', 'paragraph', 'subparagraph'):
         return 'sec'
     if name in DECLS:
         return 'decl'
@@ -97,6 +98,8 @@ def kind_of(node):
     if name == 'item':
         return 'item'
     if name in ('bgroup', 'begingroup'):
+        if getattr(getattr(node, 'parentNode', None), 'nodeName', None) == 'math':
+            return None         # the bare group the concretiser puts inside mathematics is not an item of the grammar
         return 'grpb'
     if name in ('textbf', 'emph', 'footnote', 'mbox', 'verb', 'math'):
         return 'cmd'
@@ -151,6 +154,8 @@ def analyse(doc):
         pname = getattr(parent, 'nodeName', None)
         if name == 'par' and pname == 'par':
             problems.append('paragraph directly inside a paragraph')
+        if pname == 'par' and kind_of(c) == 'sec':
+            problems.append('sectioning unit <%s> inside a paragraph' % name)
         if kind_of(parent) == 'sec' and not viaattr:
             if not (name == 'par' or (kind_of(c) == 'sec' and c.level > parent.level)):
                 problems.append('<%s> is a direct child of sectioning unit <%s>' % (name, pname))
@@ -197,7 +202,7 @@ def check_subst(doc, src):
         n = m.group(2)
         if ('w%sa\u2013w%sb' % (n, n)) not in text:
             out.append('-- in the argument of \\%s was not turned into an en dash (w%sa--w%sb)' % (m.group(1), n, n))
-    for m in re.finditer(r'(\\verb\||\$)w(\d+)a--', src):
+    for m in re.finditer(r'(\\verb\||\$)w(\d+)a\{?--', src):
         n = m.group(2)
         if ('w%sa--w%sb' % (n, n)) not in text:
             out.append('-- inside %s material was changed (w%sa--w%sb)' % ('verbatim' if m.group(1).startswith('\\') else 'math', n, n))
